@@ -1,7 +1,7 @@
 """C09 — computed national check digits validate; parsing and rebuilding round-trips."""
 from __future__ import annotations
 
-from ..algo_eval import Evaluator, accepts_of, country_fields, is_library_exc, probes, struct_positions
+from ..algo_eval import Evaluator, accepts_of, all_values_agreement, country_fields, is_library_exc, probes, struct_positions
 from ..gen_eval import GUARDED, GenHarness, pattern
 from ..srcmodel import AnalysisError
 from ..tables import national as NAT
@@ -37,6 +37,7 @@ def run(ctx, report):
         nat = fields.get("national_checksum_digits")
         n = 0
         mism = None
+        computed = []
         for p in probes(fields, acc, ctx.seed, n_random=12):
             args = [p.get(c, "") for c in acc]
             got = ev.call(r.cls, "compute", [args])
@@ -46,6 +47,7 @@ def run(ctx, report):
                     mism = (p, f"compute raises {got[1].name}")
                 continue
             digits = got[1]
+            computed.append((p, args, digits))
             v = ev.call(r.cls, "validate", [args, digits])
             if v != ("ret", True) and mism is None:
                 mism = (p, f"validate(fields, compute(fields) = {digits!r}) gives {_s(v)}")
@@ -57,6 +59,9 @@ def run(ctx, report):
                     mism = (p, f"validate accepts {other!r} although compute gives {digits!r}")
             if "national_checksum_digits" in acc and mism is None:
                 mism = (p, "the algorithm reads the check-digit field it is supposed to compute")
+        if mism is None and computed:
+            extra, mism = all_values_agreement(ev, r.cls, acc, computed)
+            n += extra
         r_same.instance({"country": cc, "probes": n})
         if mism:
             r_same.finding(f"{cc}:agreement", f"{r.cls.qualname}: {mism[1]} for {cc} fields { {c: mism[0].get(c, '') for c in acc} }", r.where,
